@@ -29,6 +29,8 @@ def _hook(ev, e, n, obj, args_e, P, fr):
     # return_name(&s): s becomes the (opaque) name of the object; masa_map(&s): s becomes its normal form
     if n == 'return_name' and obj is not None and len(args_e) == 1:
         o = ev.E(obj, P, fr)
+        while o[0] == 'deref':
+            o = o[1]        # the object a pointer value designates is identified with that pointer value
         a = strip(args_e[0], casts=True)
         if a.get('k') == 'un' and a['op'] == '&':
             ev.assign(a['e'], name_of(ev.prog, o), P, fr, e.get('l'))
